@@ -24,7 +24,8 @@ MANIFEST = dict(
     technique='abstract interpretation of detect_label_type / write_label / deserialize_hml / serialize_dict / parse_hashmap(_aug) compared with an independent canonical Hashmap encoder; label decision exhaustive over (n, m, same)',
     text='Decides that the label kind chosen equals TON\'s for all (n, m, same) triples (quick: complete on all boundary bands; thorough: all 1 047 553 points), '
          'that label layouts equal HmLabel, that the emitted tree is the canonical Patricia tree for every key set of widths 1..3(4) and structured larger sets, and '
-         'that both parsers decode every valid (also non-canonical, also pruned) encoding of those trees with extras in TON order.',
+         'that both parsers decode every valid (also non-canonical, also pruned) encoding of those trees with extras in TON order.'
+         ' Maps serialised one after the other in one process (the same label string under different remaining key lengths) are each canonical.',
     note='trusted: interpreter, sa/dictspec.py (transcription of dict.cpp / hashmap.tlb). Not decided: all key sets of all widths (finite families only).',
     design_ref='DESIGN.md section 4 C10')
 
